@@ -195,6 +195,25 @@ class TableModel:
         raise NotImplementedError("table models are used with explicit limits")
 
 
+class ProductModel:
+    """independent variables with tabulated cell masses: P[i, j, ...] = a_i * b_j * ... on the model's own grid
+    (a region with an enclosed hole / cavity arises from masses that dip in the middle of every axis)"""
+
+    def __init__(self, t):
+        self.distributions = [_TableMarginal(np.arange(len(m) + 1) * float(dl), m) for m, dl in zip(t["masses"], t["deltas"])]
+        self.conditional_on = [None] * len(self.distributions)
+        self.n_dim = len(self.distributions)
+
+    def marginal_icdf(self, p, dim, precision_factor=1, **kw):
+        raise NotImplementedError("product table models are used with explicit limits")
+
+
+def product_grid(t):
+    deltas = [float(d) for d in t["deltas"]]
+    limits = [[0.5 * dl, (len(m) - 0.5) * dl] for m, dl in zip(t["masses"], deltas)]
+    return limits, deltas
+
+
 def table_grid(t):
     """limits and deltas under which the HDC grid is the table's grid (cell centres at (k + 1/2) * delta)"""
     w = np.asarray(t["weights"], dtype=float)
@@ -211,6 +230,8 @@ def build_model(desc):
     import virocon as vc
     if desc.get("table") is not None:
         return TableModel(desc["table"])
+    if desc.get("product") is not None:
+        return ProductModel(desc["product"])
     if desc.get("predefined") is not None:
         return fit_predefined(desc["predefined"])[0]
     dds = []
